@@ -76,6 +76,19 @@ def hash_attr(I, h, name):
     return NotImplemented
 
 
+def canon_arr(b):
+    """array that depends only on the CONTENT of the bytes value (cells beyond the length are zero), so that equal byte
+    strings give identical arguments to uninterpreted functions"""
+    n = concrete_int(b.length)
+    if n is not None and n <= 128:
+        arr = z3.K(IntS, z3.IntVal(0))
+        for i in range(n):
+            arr = z3.Store(arr, i, b.at(i))
+        return arr
+    j = z3.Int(fresh_name("c"))
+    return z3.Lambda([j], z3.If(z3.And(j >= 0, j < to_z3_int(b.length)), b.at(j), z3.IntVal(0)))
+
+
 class DStub(object):
     """model of a twisted Deferred: records its state and the callbacks chained on it (never runs them itself)."""
 
@@ -114,6 +127,47 @@ def register(t):
         import eliot
         t[eliot.start_action] = lambda I, a, k: Opaque("eliot-action")
         t[eliot.start_task] = lambda I, a, k: Opaque("eliot-task")
+    except Exception:
+        pass
+    try:
+        import attr
+
+        def assoc(I, a, k):
+            inst = a[0]
+            if not isinstance(inst, SObj):
+                raise Undecided("attr.assoc on %r" % (inst,))
+            new = SObj(inst.cls, dict(inst.fields))
+            names = {f.name for f in attr.fields(inst.cls)}
+            for kk, v in k.items():
+                if kk not in names:
+                    raise PyRaise(TypeError("no attribute " + kk), TypeError)
+                new.fields[kk] = v
+            return new
+        t[attr.assoc] = assoc
+
+        def evolve(I, a, k):
+            inst = a[0]
+            new = SObj(inst.cls, dict(inst.fields))
+            for f in attr.fields(inst.cls):
+                init_name = f.name.lstrip("_")
+                if init_name in k:
+                    new.fields[f.name] = k[init_name]
+            return new
+        t[attr.evolve] = evolve
+    except Exception:
+        pass
+    try:
+        import nacl.hash
+        BL = z3.Function("blake2b_32", ByteArr, ByteArr)
+
+        def blake2b(I, a, k):
+            d = a[0]
+            if isinstance(d, (bytes, bytearray)):
+                return nacl.hash.blake2b(bytes(d), **{kk: v for kk, v in k.items()})
+            b = as_sbytes(d)
+            n = k.get("digest_size", 32)
+            return SBytes(BL(canon_arr(b)), n)
+        t[nacl.hash.blake2b] = blake2b
     except Exception:
         pass
     import hashlib
